@@ -1,6 +1,7 @@
 import Driver.OpsApply
 import Driver.OpsCase
 import Driver.OpsVariant
+import Driver.OpsSerde
 /-
   rmodel: the executable side of the Lean model.  One request per line on stdin, one canonical
   result line on stdout; the same lines go to the Rust harness and the two streams are diffed.
@@ -11,6 +12,7 @@ def handlers : List (List String → Option String) :=
   [ OpsApply.dispatch
   , OpsCase.dispatch
   , OpsVariant.dispatch
+  , OpsSerde.dispatch
   ]
 
 def dispatch (fields : List String) : String :=
